@@ -7,7 +7,7 @@
    by changing its value alone.  Proved here for one complete cycle as a function ([mgm_next]),
    for all inputs, both objectives -- suffix _partial because the refinement of the asynchronous
    handlers to [mgm_next] is checked by the correspondence run (M_Mgm.rcheck_case), not proved. *)
-From PyDcop Require Import Base Net M_Mgm P_Mgm M_Mgm2 P_Mgm2 P_Mgm3 P_Mgm3c P_Mgm3b.
+From PyDcop Require Import Base Net M_Mgm P_Mgm M_Mgm2 P_Mgm2 P_Mgm3 P_Mgm3c P_Mgm3b M_Mgm2r P_Mgm2r.
 
 (* variables that take part in cycles (they have a neighbour) *)
 Theorem mgm_no_move_1opt_partial : forall d, wf_dcop d = true -> forall a dr,
@@ -54,6 +54,45 @@ Theorem mgm2_no_move_1opt_refuted :
   /\ gcost w04_d (val_at evs 1) = 1 /\ In 5 (dom_of w04_d 2)
   /\ gcost w04_d (fupd (val_at evs 1) 2 5) = 0.
 Proof. exact mgm2_no_move_1opt_refuted_l. Qed.
+
+(* ------------------------------------------------------------------ deepening 2 (M_Mgm2r.v / P_Mgm2r.v)
+   MGM2 at ROUND level ([mgm2_next] = one complete MGM2 cycle of all computations as a function on
+   assignments, see Prop_C03).  Positive, guarded statement, every well-formed DCOP, min and max, every
+   threshold / favor mode / draws: in a round in which NO node committed to a coordinated move (the guard
+   that excludes finding C04-mgm2-idle-after-commitment, whose witness needs a committed variable getting
+   NO-GO), if no variable changes its value then no variable that takes part in cycles can improve the global
+   cost by a unilateral change.  Full statement NOT claimed (false, mgm2_no_move_1opt_refuted): the same
+   without the guard.  _partial: the refinement of the asynchronous handlers to [mgm2_next] is not proved;
+   it is checked on every run by M_Mgm2r.r2check_case. *)
+Theorem mgm2_no_commit_no_move_1opt_partial : forall d thr favor a orc, wf_dcop d = true ->
+  (forall n, In n (ids d) -> r2_committed d thr favor a orc n = false) ->
+  (forall v, In v (ids d) -> mgm2_next d thr favor a orc v = a v) ->
+  forall n x, In n (ids d) -> r_active d n = true -> In x (dom_of d n) ->
+  better (d_max d) (gcost d (fupd a n x)) (gcost d a) = false.
+Proof. exact mgm2_no_commit_no_move_1opt_l. Qed.
+
+(* non-vacuity: on the instance below, (0,1,1), v0 and v2 are offerers (100 < 500) and offer to v1, v1 is
+   not; no offer improves, nobody commits, nobody moves: the hypotheses hold and the assignment is 1-opt.
+   On the witness instance of mgm2_no_move_1opt_refuted the guard fails: the idle round has committed nodes *)
+Definition ex2_d : dcop :=
+  mkD [(0, mkV [0; 1] None []); (1, mkV [0; 1] None [(0, 3); (1, 0)]); (2, mkV [0; 1] None [])]
+      [mkC [0; 1] [([0; 0], 1); ([0; 1], 0); ([1; 0], 0); ([1; 1], 2)];
+       mkC [1; 2] [([0; 0], 8); ([0; 1], 4); ([1; 0], 6); ([1; 1], 3)]] false.
+Example c04_mgm2_round_nonvacuous :
+  let a := fun v : Z => if v =? 0 then 0 else 1 in
+  let orc := fun v : Z => if v =? 1 then [700; 0] else [100; 0; 0] in
+  wf_dcop ex2_d = true
+  /\ map (r2_offerer 500 orc) [0; 1; 2] = [true; false; true]
+  /\ map (r2_choice ex2_d 500 orc) [0; 1; 2] = [Some 1; None; Some 1]
+  /\ map (r2_committed ex2_d 500 0 a orc) [0; 1; 2] = [false; false; false]
+  /\ map (mgm2_next ex2_d 500 0 a orc) [0; 1; 2] = map a [0; 1; 2]
+  /\ gcost ex2_d a = 3
+  /\ map (fun p => gcost ex2_d (fupd a (fst p) (snd p))) [(0, 1); (1, 0); (2, 0)] = [5; 8; 6]
+  /\ (let a4 := fun v : Z => if v =? 0 then 0 else if v =? 1 then 3 else 1 in
+      let orc4 := orc_of w04_orc in
+      map (mgm2_next w04_d 500 0 a4 orc4) [0; 1; 2] = map a4 [0; 1; 2]
+      /\ existsb (r2_committed w04_d 500 0 a4 orc4) [0; 1; 2] = true).
+Proof. vm_compute. repeat split; reflexivity. Qed.
 
 (* non-vacuity: on the instance of Prop_C03, (0,1,1) is a fixed point of the cycle function and is
    1-opt (cost 3; the six unilateral changes give 4, 7, 5 ...), while (0,0,0) is not a fixed point *)
